@@ -5,3 +5,4 @@ import NbdimeProofs.Properties.C14
 import NbdimeProofs.Properties.C12
 import NbdimeProofs.Lemmas.KV
 import NbdimeProofs.Properties.C18
+import NbdimeProofs.Properties.C19
